@@ -84,3 +84,4 @@ MANIFEST = {
     "technique": "runtime monitoring: metamorphic trace comparison (solo reference trace vs the same history replayed in other batch contexts)",
     "design_ref": "DESIGN.md section 4 / C04",
 }
+MANIFEST["text"] += ' Round 7: batch-mates of another magnitude (every other row x1000; OP rows whose budget is within 5e-4 of a closed tour).'
